@@ -283,6 +283,8 @@ func searchtrace(args []string) {
 			}
 		case "c18":
 			doC18(ctx, w, r, name, root, d)
+		case "x03":
+			doPonder(ctx, w, r, c, root, d, *limit)
 		}
 	}
 	w.Close()
@@ -311,6 +313,47 @@ func dumpTree(ctx context.Context, w *out.Writer, c *sdump.Config, root rootT, d
 
 func emptyCtx() *search.Context {
 	return &search.Context{TT: search.NoTranspositionTable{}}
+}
+
+// doPonder: a search restricted to a line (search.Context.Ponder, used by the console driver's per-move
+// breakdown): along the line only the line's move is explored. Beyond the listed properties (X03).
+func doPonder(ctx context.Context, w *out.Writer, r *rand.Rand, c *sdump.Config, root rootT, depth, limit int) {
+	if _, ok := c.Search.(search.AlphaBeta); !ok {
+		return // only the alpha-beta search implements the restriction
+	}
+	if root.b.Result().Outcome == board.Draw {
+		return
+	}
+	b := root.b.Fork()
+	var line []board.Move
+	for k := 0; k < 1+r.Intn(2) && k < depth; k++ {
+		legal, _ := gen.LegalOf(b)
+		if len(legal) == 0 || b.Result().Outcome == board.Draw {
+			break
+		}
+		m := legal[r.Intn(len(legal))]
+		line = append(line, m)
+		b.PushMove(m)
+	}
+	if len(line) == 0 {
+		return
+	}
+	fb := root.b.Fork()
+	if c.Reset != nil {
+		c.Reset(ctx, fb)
+	}
+	d := &sdump.Dumper{C: c, Limit: limit, Ponder: line}
+	tree := d.Main(ctx, fb, depth, nil)
+	if d.Over() {
+		return
+	}
+	w.Emit(out.M{"op": "tree", "cfg": c.Cfg, "name": c.Name, "depth": depth, "mindepth": depth, "root": tree, "desc": root.desc,
+		"nodes": d.Nodes, "rec": sdump.Rec(root.b), "posdet": proj.B2I(c.PosDet)})
+	sb := root.b.Fork()
+	rec0 := sdump.Rec(sb)
+	nodes, score, pv, err := c.Search.Search(ctx, &search.Context{TT: search.NoTranspositionTable{}, Ponder: line}, sb, depth)
+	w.Emit(out.M{"op": "psearch", "depth": depth, "a": proj.ScoreOf(eval.NegInfScore), "b": proj.ScoreOf(eval.InfScore), "tt": "none",
+		"res": sdump.ResultOf(nodes, score, pv, err), "rec0": rec0, "rec1": sdump.Rec(sb), "writes": []int{}})
 }
 
 func doC03(ctx context.Context, w *out.Writer, c *sdump.Config, root rootT, depth, limit int) {
